@@ -93,3 +93,64 @@ Definition tie_perm (n : nat) (M : list (list Z))
             | Err _ => false
             end
      end.
+
+(* ---------------------------------------------------------------- scaled data and result layout *)
+
+(* the stored values are the integers times an exact power-of-two scale sc *)
+Definition zqs (sc : Q) (M : list (list Z)) : list (list Q) :=
+  map (map (fun z => Qred (inject_Z z * sc))) M.
+
+Definition approx_inverse_s (n : nat) (sc : Q) (A : list (list Z)) (Ai : list (list Q)) : bool :=
+  shapedb n n Ai && approx_id n (qmm n (zqs sc A) Ai) && approx_id n (qmm n Ai (zqs sc A)).
+
+Definition inv_agrees_s (n : nat) (sc : Q) (D : list (list Z)) (model_ok : bool) (model_err : err)
+                        (impl : res (list (list Q))) : bool :=
+  match impl with
+  | Ok Ai => model_ok && approx_inverse_s n sc D Ai
+  | Err e => negb model_ok && err_eqb e model_err
+  end.
+
+(* as tie_bd, for data scaled by sc, plus the storage layout (indptr, indices) of the
+   matrix returned by block_diag_matrix *)
+Definition tie_bd_s (csc : bool) (A : csr) (sz : list nat) (sc : Q) (nnz_impl : list nat)
+                    (py_blocks : res (list (list (list Z))))
+                    (inv_py inv_nb : res (list (list Q)))
+                    (lay_ptr lay_idx : list nat) : bool :=
+  let szf := filter (fun s => 0 <? s)%nat sz in
+  let A' := if has_stored_zero A then eliminate_zeros A else A in
+  let mp := extract_blocks Python A sz in
+  let mn := extract_blocks Numba A sz in
+  let D := dense_of csc A in
+  eqb_listN (idx_nnz A' szf) nnz_impl
+  && res_eqb eqb_blocks mp py_blocks
+  && (match mp with
+      | Ok bs => eqb_matZ (block_diag 0%Z bs) (to_dense A)
+                 && eqb_listN (bdm_indptr szf) lay_ptr && eqb_listN (bdm_indices szf) lay_idx
+      | Err _ => true
+      end)
+  && inv_agrees_s (nmaj A) sc D (fst (res_parts mp)) (snd (res_parts mp)) inv_py
+  && inv_agrees_s (nmaj A) sc D (fst (res_parts mn)) (snd (res_parts mn)) inv_nb.
+
+Definition tie_perm_s (n : nat) (M : list (list Z)) (sc : Q)
+                      (perm_impl : res (list nat * list nat * list nat))
+                      (abd_impl : list (list Z)) (inv_impl : res (list (list Q))) : bool :=
+  let cs := components n M in
+  let mp := perm_of_components n cs in
+  res_eqb eqb_perm3 mp perm_impl
+  && comps_closed n M cs
+  && match mp with
+     | Err _ => true
+     | Ok (rp, cp, sz) =>
+         let B := to_block_form 0%Z n M rp cp in
+         is_permb n rp && is_permb n cp
+         && eqb_matZ B abd_impl
+         && is_block_diag B sz
+         && eqb_matZ (mat_mul 0%Z Z.add Z.mul n
+                        (mat_mul 0%Z Z.add Z.mul n (perm_mat 0%Z 1%Z n rp) M)
+                        (perm_mat 0%Z 1%Z n (invperm n cp))) B
+         && eqb_listN (map (fun x => nth x (invperm n cp) 0%nat) cp) (seq 0%nat n)
+         && match inv_impl with
+            | Ok Ai => approx_inverse_s n sc M Ai
+            | Err _ => false
+            end
+     end.
